@@ -3,65 +3,163 @@ import RavenModel.Model.SearchImpl
 namespace Raven.Props.C19
 open Raven Raven.Search
 
-/-- C19.1 (supported fragment)  for every message and every program of the supported fragment — implicit AND of simple keys
-(flag keys, KEYWORD/UNKEYWORD, sequence and UID sets, sizes, header / body / text substrings, internal and sent dates), HEADER,
-NOT over a simple key, OR over two simple keys — the token loop computes exactly the conjunction the reference evaluator gives. -/
-theorem eval_correct_fragment (P : Prim) (items : List Item) :
-    eval P (items.flatMap Item.print) = some (items.all (Item.eval P)) :=
-  Search.eval_correct P items
+/-- C19.1  for every message and **every program of the search-key language** — simple keys (flag keys, KEYWORD/UNKEYWORD,
+sequence and UID sets, sizes, header / body / text substrings, internal and sent dates), HEADER, NOT over any key, OR over any two
+keys, parenthesised groups, nested to any depth, and their implicit AND — the evaluator reads the printed program back as the
+same keys and computes exactly what the reference evaluator computes on the key tree; in the specification's mode, in
+SEARCH's and in UID SEARCH's. -/
+theorem eval_correct (P : Prim) (m : Mode) (ks : Keys) (fuel : Nat) (h : ks.cost ≤ fuel) :
+    evalKeys P m fuel ks.print = some (ks.eval P) :=
+  evalKeys_print P m ks fuel h
 
-/-- C19.1'  …and such programs pass both validation passes (they are never refused). -/
-theorem fragment_is_valid (items : List Item) :
-    strictValid (items.flatMap Item.print) = true ∧ valid (items.flatMap Item.print) = true :=
-  ⟨valid_print false items, valid_print true items⟩
+/-- …in particular such a program is never refused -/
+theorem language_is_wellformed (P : Prim) (m : Mode) (ks : Keys) : (evalKeys P m ks.cost ks.print).isSome = true := by
+  rw [eval_correct P m ks ks.cost (Nat.le_refl _)]; rfl
 
-/-- C19.2  the evaluator is total: whatever the token list (missing arguments after OR / NOT / HEADER included), it answers —
-there is no index beyond the end of the token list. -/
-theorem never_panics (P : Prim) (ts : List Tok) : (eval P ts).isSome = true := eval_total P ts
+/-- C19.2  an incomplete key (an argument or a sub-key missing after NOT, OR, HEADER, FROM …, at the end of the program or
+of a group) has no value: it is an error, not an index beyond the end of the token list (the OR panic cannot return) and not
+some other program's result -/
+theorem or_one_key_none (P : Prim) (m : Mode) (a : Bytes) : ∀ fuel, evalKey P m fuel [.orT, .kw0 a] = none := by
+  intro fuel
+  cases fuel with
+  | zero => rfl
+  | succ f =>
+    cases f with
+    | zero => simp [evalKey]
+    | succ g => cases g <;> simp [evalKey]
 
-/-- C19.3  ascending order without duplicates: the answer is the selected mailbox's numbering filtered, so it inherits
+theorem keys_none_of_key_none (P : Prim) (m : Mode) (t : Tok) (r : List Tok) (h : ∀ fuel, evalKey P m fuel (t :: r) = none) :
+    ∀ fuel, evalKeys P m fuel (t :: r) = none := by
+  intro fuel
+  cases fuel with
+  | zero => rfl
+  | succ f => simp [evalKeys, h f]
+
+theorem incomplete_is_error (P : Prim) (m : Mode) (fuel : Nat) :
+    evalKeys P m fuel [.orT, .kw0 (b!"SEEN")] = none ∧ evalKeys P m fuel [.notT] = none ∧
+    evalKeys P m fuel [.kw1 (b!"FROM")] = none ∧ evalKeys P m fuel [.hdr, .other (b!"Subject")] = none ∧
+    evalKeys P m fuel [.kw0 (b!"SEEN"), .group (b!"(OR SEEN)") [.orT, .kw0 (b!"SEEN")]] = none := by
+  have hor := keys_none_of_key_none P m _ _ (or_one_key_none P m (b!"SEEN"))
+  refine ⟨hor fuel, ?_, ?_, ?_, ?_⟩
+  · apply keys_none_of_key_none
+    intro f; cases f with
+    | zero => rfl
+    | succ g => cases g <;> simp [evalKey]
+  · apply keys_none_of_key_none
+    intro f; cases f <;> simp [evalKey]
+  · apply keys_none_of_key_none
+    intro f; cases f <;> simp [evalKey]
+  · cases fuel with
+    | zero => rfl
+    | succ f =>
+      cases f with
+      | zero => simp [evalKeys, evalKey]
+      | succ g =>
+        have hgk : ∀ f, evalKey P m f [Tok.group (b!"(OR SEEN)") [.orT, .kw0 (b!"SEEN")]] = none := by
+          intro f; cases f with
+          | zero => rfl
+          | succ k => simp [evalKey, hor k]
+        have hg := keys_none_of_key_none P m _ _ hgk (g + 1)
+        rw [evalKeys]
+        simp only [evalKey, hg]
+
+/-- C19.3  whether a program is refused does not depend on the mailbox content -/
+theorem refusal_is_about_the_program (P Q : Prim) (m : Mode) (fuel : Nat) (ts : List Tok) :
+    (evalKeys P m fuel ts).isSome = (evalKeys Q m fuel ts).isSome :=
+  (wellformed_indep P m Q fuel).2 ts
+
+/-- C19.4  ascending order without duplicates: the answer is the selected mailbox's numbering filtered, so it inherits
 strict ascent from the mailbox (sequence numbers 1..N, UIDs ascending: C03/C09). -/
 theorem ascending_nodup (uidMode : Bool) (crit : Bytes) (box : List Msg) (ns : List Nat)
     (hs : (box.map (fun m => if uidMode then m.uid else m.seq)).Pairwise (· < ·))
     (h : search uidMode crit box = .hits ns) : ns.Pairwise (· < ·) := by
+  have key : ∀ (md : Mode) (fuel : Nat) (toks : List Tok), (hitsOf uidMode md fuel toks box).Pairwise (· < ·) := by
+    intro md fuel toks
+    unfold hitsOf
+    rw [List.pairwise_map] at hs ⊢
+    exact List.Pairwise.sublist List.filter_sublist hs
   unfold search at h
   simp only [] at h
   split at h
   · cases h
-  · simp only [Answer.hits.injEq] at h
-    subst h
-    unfold hitsOf
-    rw [List.pairwise_map] at hs ⊢
-    exact List.Pairwise.sublist List.filter_sublist hs
+  · split at h
+    · rename_i hu
+      simp only [Answer.hits.injEq] at h
+      subst h
+      have := key .uid (fuelFor crit) (tokens crit)
+      simpa [hu] using this
+    · rename_i hu
+      split at h
+      · simp only [Answer.hits.injEq] at h
+        subst h
+        have := key .search (fuelFor crit) (tokens crit)
+        simpa [hu] using this
+      · cases h
 
-/-- C19.4  on every program the strict pass lets through — the supported fragment — SEARCH and UID SEARCH as coded answer what
-the specification answers. -/
+/-- C19.5  on every program the specification evaluates, SEARCH and UID SEARCH as coded answer what the specification answers -/
 theorem impl_meets_spec_on_supported (uidMode : Bool) (crit : Bytes) (box : List Msg)
-    (h : strictValid ((tokenise crit).map classify) = true) : search uidMode crit box = searchSpec uidMode crit box := by
+    (h : wellFormed .spec (fuelFor crit) (tokens crit) = true) (hne : (tokens crit).isEmpty = false) :
+    search uidMode crit box = searchSpec uidMode crit box := by
+  have same : ∀ (md : Mode), Mode.le .spec md = true → ∀ m : Msg,
+      (evalKeys (primOf m) md (fuelFor crit) (tokens crit)).getD false =
+      (evalKeys (primOf m) .spec (fuelFor crit) (tokens crit)).getD false := by
+    intro md hle m
+    have hs : (evalKeys (primOf m) .spec (fuelFor crit) (tokens crit)).isSome = true := by
+      rw [refusal_is_about_the_program (primOf m) (primOf noMsg)]; exact h
+    cases hv : evalKeys (primOf m) .spec (fuelFor crit) (tokens crit) with
+    | none => simp [hv] at hs
+    | some v => rw [(eval_mode_mono (primOf m) hle (fuelFor crit)).2 _ v hv]
+  have wf : wellFormed .search (fuelFor crit) (tokens crit) = true := by
+    unfold wellFormed at h ⊢
+    cases hv : evalKeys (primOf noMsg) .spec (fuelFor crit) (tokens crit) with
+    | none => simp [hv] at h
+    | some v => rw [(eval_mode_mono (primOf noMsg) (a := .spec) (b := .search) rfl (fuelFor crit)).2 _ v hv]; rfl
   unfold search searchSpec
-  have h2 := strict_le _ h
-  cases uidMode <;> simp [h, h2]
+  simp only [hne, h, wf, Bool.not_true, Bool.false_eq_true, or_self, if_false, if_true]
+  cases uidMode
+  · simp only [Bool.false_eq_true, if_false, hitsOf]
+    congr 2
+    apply List.filter_congr
+    intro m _
+    rw [same .search rfl m]
+  · simp only [if_true, hitsOf]
+    congr 2
+    apply List.filter_congr
+    intro m _
+    rw [same .uid rfl m]
 
-/-- C19.5 (full statement, true of the specification)  a program outside the supported fragment is an error. -/
+/-- C19.6 (full statement, true of the specification)  a program outside the search-key language is an error -/
 theorem spec_unsupported_is_error (uidMode : Bool) (crit : Bytes) (box : List Msg)
-    (h : strictValid ((tokenise crit).map classify) = false) : searchSpec uidMode crit box = .bad := by
+    (h : wellFormed .spec (fuelFor crit) (tokens crit) = false) : searchSpec uidMode crit box = .bad := by
   unfold searchSpec
   simp [h]
 
-/-- C19.5 partial (what the code achieves)  SEARCH refuses every program its validation pass rejects: parenthesised groups,
-NOT / OR over anything but simple keys, missing arguments. What is missing from the full statement: a bare unknown word is
-skipped by SEARCH (C19-F2) and UID SEARCH validates nothing (C19-F1); both are pinned by existing tests. -/
+/-- C19.6 partial (what the code achieves)  SEARCH refuses every program its walk rejects: incomplete keys and unclosed
+groups. What is missing from the full statement: a bare unknown word is skipped by SEARCH (C19-F2) and UID SEARCH refuses
+nothing (C19-F1); both are pinned by existing tests. -/
 theorem unsupported_is_error_partial (crit : Bytes) (box : List Msg)
-    (h : valid ((tokenise crit).map classify) = false) : search false crit box = .bad := by
+    (h : wellFormed .search (fuelFor crit) (tokens crit) = false) : search false crit box = .bad := by
   unfold search
   simp [h]
 
-/-- the two recorded gaps, as witnesses against the full statement for the code as it is -/
+/-- the two recorded gaps as witnesses against the full statement for the code as it is, and the programs that used to be
+misread, now evaluated or refused -/
 theorem gap_witnesses :
     search false (b!"BOGUS") [] = .hits [] ∧ searchSpec false (b!"BOGUS") [] = .bad ∧
-    search true (b!"(SEEN)") [] = .hits [] ∧ searchSpec true (b!"(SEEN)") [] = .bad ∧
-    search false (b!"(SEEN)") [] = .bad ∧ search false (b!"OR OR SEEN FLAGGED DELETED") [] = .bad ∧
-    search false (b!"NOT NOT SEEN") [] = .bad ∧ search false (b!"FROM") [] = .bad := by decide
+    search true (b!"FROM") [] = .hits [] ∧ searchSpec true (b!"FROM") [] = .bad ∧
+    search false (b!"(SEEN") [] = .bad ∧ search false (b!"OR OR SEEN FLAGGED") [] = .bad ∧
+    search false (b!"NOT NOT") [] = .bad ∧ search false (b!"FROM") [] = .bad ∧ search false (b!"OR (FROM) SEEN") [] = .bad := by decide
+
+/-- groups and nested operators are evaluated: message 1 is seen and flagged, message 2 only seen -/
+theorem nested_examples :
+    let m1 : Msg := { seq := 1, uid := 4, flags := [(b!"\\Seen"), (b!"\\Flagged")], idate := (2026, 1, 1), sdate := none, raw := [], maxSeq := 2, maxUid := 9 }
+    let m2 : Msg := { seq := 2, uid := 9, flags := [(b!"\\Seen")], idate := (2026, 1, 1), sdate := none, raw := [], maxSeq := 2, maxUid := 9 }
+    search false (b!"(SEEN FLAGGED)") [m1, m2] = .hits [1] ∧
+    search false (b!"NOT (SEEN FLAGGED)") [m1, m2] = .hits [2] ∧
+    search false (b!"OR OR DELETED FLAGGED NOT SEEN") [m1, m2] = .hits [1] ∧
+    search true (b!"NOT NOT (OR (FLAGGED) DRAFT)") [m1, m2] = .hits [4] ∧
+    search false (b!"SEEN (NOT (FLAGGED))") [m1, m2] = .hits [2] ∧
+    searchSpec true (b!"SEEN (NOT (FLAGGED))") [m1, m2] = .hits [9] := by decide
 
 /-- sequence sets inside SEARCH address what they denote: `*` is the last message only, comma lists are unions -/
 theorem set_examples :
